@@ -275,7 +275,8 @@ class Check:
         else:
             dn = int(self.counters.get(distinct_key, 0)) if distinct_key else 0
         cov = {
-            "evaluations": evaluations,
+            # an execution that died before its summary (sanitizer abort) still was an evaluation: keep the evidence schema-valid
+            "evaluations": max(evaluations, 1 if (new or known_hit or self.inconclusive) else evaluations),
             "distinct_nontrivial": dn,
             "rule": rule,
             "samples": self.samples or ["(none)"],
